@@ -379,7 +379,10 @@ class _GlobSplit(Generic[AnyStr]):
             else:
                 gstar = b'**' if is_bytes else '**'
                 is_globstarlong = False
-            parts.insert(0, _GlobPart(gstar, True, True, is_globstarlong, True, False))
+            # The pattern may already start with a globstar: consecutive globstars are one
+            # (`store` keeps the later of two for the same reason).
+            if not parts[0].is_globstar:
+                parts.insert(0, _GlobPart(gstar, True, True, is_globstarlong, True, False))
 
         if self.no_abs and parts and parts[0].is_drive:
             raise ValueError('The pattern must be a relative path pattern')
